@@ -144,9 +144,20 @@ P("C09", "proof", "Lean 4 theorems (law B of the back parser, byte-prefix lemma)
             "TP.C09.unix_parent_comps", "TP.C09.unix_parent_vs_std"],
   rule=NONTRIV + "non-trivial = prefix or >= 2 components", design_ref="§5 C09")
 
-P("C10", "translation_validation", "Lean model vs code differential + clause oracle",
-  "strip_prefix / starts_with / ends_with / join against the model; clauses on pairs of well-formed paths.",
-  TV_NOTE + "Known findings K2, K3 set aside by class predicates.",
+P("C10", "proof", "Lean 4 theorems for Unix (laws F/R + append lemma) + model/code correspondence; Windows clauses partial (known findings K2, K3), decided by oracle",
+  "Proved in Lean for all Unix byte strings / pairs: starts_with holds exactly when the base's components are a leading "
+  "run of the path's, in particular for equal paths (unix_starts_with_iff, unix_starts_with_of_eq); ends_with is the "
+  "mirror image (unix_ends_with_iff); strip_prefix succeeds exactly when starts_with holds "
+  "(unix_strip_iff_starts), the remainder's components are the path's after the base's (unix_strip_comps) and the "
+  "base joined with the remainder equals the path (unix_strip_join); for a relative b and non-empty a, a joined with "
+  "b starts with a and stripping a yields b's components minus a leading `.` (unix_join_starts_strip).",
+  "Partial: on Windows the statement is false in two known ways — prefix components are compared by spelling (K2, "
+  "proved as win_starts_with_K2_witness) and a remainder / base beginning with two separators re-parses as a UNC "
+  "prefix (K3) — and the remaining Windows cases need the Windows append / re-parse lemmas, which are not proved; "
+  "the oracle decides them on pairs of well-formed paths with re-spellings, K2/K3 set aside by narrow class "
+  "predicates. UTF-8 / typed forms: oracle. Model=code by differential testing.",
+  theorems=["TP.C10.unix_starts_with_iff", "TP.C10.unix_starts_with_of_eq", "TP.C10.unix_ends_with_iff", "TP.C10.unix_strip_iff_starts",
+            "TP.C10.unix_strip_comps", "TP.C10.unix_strip_join", "TP.C10.unix_join_starts_strip", "TP.C10.win_starts_with_K2_witness"],
   rule=NONTRIV + "pairs (path, every byte-prefix and suffix of it, re-spellings, random others); non-trivial = proper non-empty component prefix", design_ref="§5 C10")
 
 P("C11", "proof", "Lean 4 theorems for Unix (render lemma: pushing the folded components re-parses to them) + model/code correspondence; Windows by fold oracle",
